@@ -10,6 +10,7 @@ import (
 	"sync/atomic"
 
 	"github.com/aws/aws-sdk-go/aws"
+	"github.com/aws/aws-sdk-go/aws/awserr"
 	"github.com/aws/aws-sdk-go/aws/request"
 	"github.com/aws/aws-sdk-go/service/s3"
 	"github.com/jrhy/mast"
@@ -85,7 +86,8 @@ func (f *fakeS3) GetObjectWithContext(ctx aws.Context, in *s3.GetObjectInput, op
 	bf := f.bodyFail[i]
 	f.mu.Unlock()
 	if !ok {
-		return nil, errors.New("NoSuchKey: The specified key does not exist.")
+		// what the SDK hands back for a 404 on GetObject
+		return nil, awserr.NewRequestFailure(awserr.New(s3.ErrCodeNoSuchKey, "The specified key does not exist.", nil), 404, "verif-request")
 	}
 	if bf {
 		return &s3.GetObjectOutput{Body: &failingReader{data: b}}, nil
@@ -305,6 +307,7 @@ func C18(run *report.Run) {
 			}
 		}
 	}
+	c18Bfs(run, acc, tmpBase)
 	c18Schedules(run, acc)
 	acc.flush(run)
 	run.Evals = st.evals + st.faults
@@ -313,7 +316,7 @@ func C18(run *report.Run) {
 	run.Extra["fault_sequences"] = st.faults
 	run.AddSample(map[string]interface{}{"backends": []string{"in-memory", "file", "s3 via an in-process fake S3Interface (3 bucket/prefix pairs)"}, "names": "all strings of length 1-2 over {A z 0 - _} and one 43-character node name",
 		"payloads": pnames, "sequence": "load never-written; store; load; store again; load; store a second name; load both; load a third never-written name", "faults": "an error at each fake-S3 call; a GET body failing mid-read; a file store whose directory does not exist"})
-	run.Rule = "exhaustive enumeration of backend x name x payload for the fixed call sequence, plus one execution per fault position; every case is distinct by construction"
+	run.Rule = "part A: exhaustive enumeration of backend x name x payload for a fixed call sequence, plus one execution per fault position (every case distinct by construction); part C: explicit-state BFS to closure over call histories of one backend object against a map model, successor = replay of the shortest history on a fresh backend + one call; part B: all interleavings of two Stores and a Load (engine S)"
 }
 
 func minInt(a, b int) int {
